@@ -82,8 +82,13 @@ WMainEnd(m, e) ==
                 Unjoined(m, e.t) = {}, "C13:early-return")
   IN Chk(m1, ~m.quit[e.t] /\ mine # {}, pend = {}, "C13:incomplete-at-return")
 
+(* global quiescence: nothing can run.  An item that is queued (or whose
+   completion is pending) while no work function is in progress anywhere will
+   never be looked at.  (While some work function is still running -- e.g.
+   blocked on a condition of the program -- the pool may simply be saturated.) *)
 WQuiesce(m) ==
-  Chk(m, \E i \in Obj : m.wi[i].st # "idle", Incomplete(m) = {}, "C12:incomplete")
+  LET inProgress == {i \in Obj : m.wi[i].st = "working"} IN
+  Chk(m, (\E i \in Obj : m.wi[i].st # "idle") /\ inProgress = {}, Incomplete(m) = {}, "C12:incomplete")
 
 (* nothing of the pools / library threads is left that could legitimately
    keep a loop alive *)
